@@ -44,7 +44,7 @@ def schemas(tier, seed=1):
 def repo_schemas():
     """the repository's own schemas (tools/xmlimport.py): trait tables of schemas that were not written for Traits.tla"""
     import viewpipe
-    return viewpipe.repo_schemas("thorough", 0)
+    return viewpipe.repo_schemas("thorough", 0, 0)
 
 
 # ------------------------------------------------------------ expected -----
